@@ -80,6 +80,10 @@ def encHRes : Except HErr Frags → String
   | .error .value => "err:ValueError"
   | .error .unsupported => "unsupported"
 
+def encHFmt : Except HErr (Option (Except Err (Except HErr Frags))) → String
+  | .error e => encHRes (.error e)
+  | .ok r => encRes encHRes r
+
 def handle (toks : List String) : String :=
   let r : Option String :=
     match toks with
@@ -98,11 +102,11 @@ def handle (toks : List String) : String :=
     | "hfmt" :: t :: rest => do
       let tm ← decStr t
       let (vs, r) ← pList pStr rest
-      if r ≠ [] then none else pure (encRes encHRes (htmlFormat tm vs))
+      if r ≠ [] then none else pure (encHFmt (htmlFormat tm vs))
     | "hmod" :: t :: rest => do
       let tm ← decStr t
       let (vs, r) ← pList pStr rest
-      if r ≠ [] then none else pure (encRes encHRes (htmlMod tm vs))
+      if r ≠ [] then none else pure (encHFmt (htmlMod tm vs))
     | "split" :: rest => do
       let (fs, r) ← pList pFrag rest
       if r ≠ [] then none else pure (encList encFrags (splitLines fs))
